@@ -80,7 +80,7 @@ def one(job):
 def main():
     jobs = []
     for prop in sorted(os.listdir(ST)):
-        for x in ('A', 'B', 'C', 'D', 'E', 'F', 'G'):
+        for x in ('A', 'B', 'C', 'D', 'E', 'F', 'G', 'H'):
             if os.path.exists(os.path.join(ST, prop, 'patch_%s.diff' % x)) and not os.path.exists(os.path.join(V, 'seeded', '%s-%s' % (prop, x), 'confirm.json')):
                 if len(sys.argv) > 1 and prop not in sys.argv[1:]:
                     continue
